@@ -104,7 +104,7 @@ QMin(v) == MinTo(v, Len(v))
 RECURSIVE ProdTo(_, _)
 ProdTo(v, k) == IF k = 0 THEN One ELSE QMul(ProdTo(v, k - 1), v[k])
 Dot(w, v) == QSum(TLCEval([i \in 1..Len(w) |-> QMul(w[i], v[i])]))      \* TLCEval: evaluate eagerly, once
-Ones(n) == [i \in 1..n |-> One]
+Ones(n) == [i \in 1..n |-> One]            \* f(x) with weights=None means f(x, Ones(Len(x)))
 
 -----------------------------------------------------------------------------
 (* DEFINITIONS (textbook, weighted).  Premise everywhere: Total(w) # 0.     *)
@@ -271,14 +271,19 @@ OpTable ==
           : k \in 1..Len(Ks)}
 
 (* support surgery.  A selection is a set of positions (support / unweighted) or a set of   *)
-(* pairs <<i,j>> (collapse: j gives its weight and its position to i).  `zero` is the set   *)
-(* of designated positions: exactly these lose their weight (a position that is not         *)
-(* designated keeps a non-zero weight non-zero); total weight and weighted mean are kept.   *)
+(* pairs <<i,j>> (collapse: j hands its weight to i and moves to the position of i, as in    *)
+(* the examples of the docstring).  `zero` is the set of designated positions: exactly      *)
+(* these lose their weight (a position that is not designated keeps a non-zero weight       *)
+(* non-zero); total weight and weighted mean are kept.                                      *)
 Firsts(P) == {p[1] : p \in P}
 Seconds(P) == {p[2] : p \in P}
 (* unambiguous collapse: no position both gives and receives, nobody gives twice *)
 SimplePairs(P) == Firsts(P) \cap Seconds(P) = {} /\ Cardinality(Seconds(P)) = Cardinality(P)
-PairSets(n) == {P \in SUBSET {<<i, j>> \in (1..n) \X (1..n) : i # j} : Cardinality(P) \in 1..2}
+Touched(P) == Firsts(P) \cup Seconds(P)
+(* every single pair; every two pairs (for n = 4: those among positions 1..3 and those touching all four) *)
+PairSets(n) == {P \in SUBSET {<<i, j>> \in (1..n) \X (1..n) : i # j} :
+                  \/ Cardinality(P) = 1
+                  \/ Cardinality(P) = 2 /\ (n <= 3 \/ Touched(P) \subseteq 1..3 \/ Cardinality(Touched(P)) = 4)}
 Selections ==       \* per length n: the catalogue of selections, each with its designated set
   [n \in 1..4 |->
      [support |-> SetToSeq({[arg |-> I, zero |-> (1..n) \ I] : I \in (SUBSET (1..n)) \ {{}}}),
@@ -292,7 +297,7 @@ Remaining(w, Z) == QSum([i \in 1..Len(w) |-> IF i \in Z THEN Zero ELSE w[i]])
 Merged(w, P) == [i \in 1..Len(w) |-> IF i \in Seconds(P) THEN Zero
                                        ELSE QAdd(w[i], QSum([j \in 1..Len(w) |-> IF <<i, j>> \in P THEN w[j] ELSE Zero]))]
 ZeroExactly(w2, w, Z) == \A i \in 1..Len(w) : (i \in Z => w2[i] = Zero) /\ (i \notin Z /\ w[i] # Zero => w2[i] # Zero)
-PostSurgery(s, w, s2, w2, Z) ==
+PostSurgery(s, w, s2, w2, Z) ==          \* the relation; action Surgery below tests it on the light observables
   /\ ZeroExactly(w2, w, Z)
   /\ Total(w2) = Total(w)
   /\ Mean(s2, w2) = Mean(s, w)
